@@ -83,10 +83,26 @@ func (n *node[T]) buildMethods() {
 	buildMethodIndexes(n.methodIndex)
 }
 
-func (n *node[T]) AllowHeader() string { return methodIndexes[n.methodIndex].options }
+func (n *node[T]) AllowHeader() string {
+	// 用户的处理函数会在请求时读取此值，此时并不在路由树的锁范围之内。
+	if l := n.root.locker; l != nil {
+		l.RLock()
+		defer l.RUnlock()
+	}
+	return methodIndexes[n.methodIndex].options
+}
 
 // Methods 当前节点支持的请求方法
-func (n *node[T]) Methods() []string { return methodIndexes[n.methodIndex].methods }
+func (n *node[T]) Methods() []string {
+	if l := n.root.locker; l != nil {
+		l.RLock()
+		defer l.RUnlock()
+	}
+	return n.methods()
+}
+
+// 与 Methods 相同，但是不加锁，由调用方保证已经处于锁的范围之内。
+func (n *node[T]) methods() []string { return methodIndexes[n.methodIndex].methods }
 
 // 添加一个处理函数
 func (n *node[T]) addMethods(h T, pattern string, ms []types.Middleware[T], methods ...string) error {
